@@ -420,3 +420,55 @@ func TestRegression_C11_F20_QuantileNeverFromTheEmptySide(t *testing.T) {
 		}
 	}
 }
+
+func TestRegression_C05_F21_CollapsedStateAfterTheOtherEndWasEmptied(t *testing.T) {
+	for _, lowest := range []bool{true, false} {
+		sign := 1
+		var s, o store.Store = store.NewCollapsingLowestDenseStore(5), store.NewCollapsingLowestDenseStore(5)
+		if !lowest {
+			sign = -1
+			s, o = store.NewCollapsingHighestDenseStore(5), store.NewCollapsingHighestDenseStore(5)
+		}
+		for _, b := range []struct {
+			i int
+			w float64
+		}{{1, 1}, {2, 1}, {3, 0x1p-600}, {4, 0x1p-600}, {5, 0x1p-600}, {0, 1}} {
+			s.AddWithCount(sign*b.i, b.w) // collapses to [1,5] (lowest) / [-5,-1] (highest)
+		}
+		_ = s.Reweight(0x1p-500) // the three bins at the non-collapsed end underflow to 0
+		_ = s.Reweight(0x1p500)
+		o.AddWithCount(0, 1)
+		s.MergeWith(o)
+		s.AddWithCount(sign*-1, 8)
+		sum := 0.0
+		s.ForEach(func(i int, c float64) bool { sum += c; return false })
+		if sum != 12 || s.TotalCount() != 12 {
+			t.Fatalf("F21 (lowest=%v): bins sum to %v, TotalCount %v, want 12 and 12", lowest, sum, s.TotalCount())
+		}
+		mn, _ := s.MinIndex()
+		mx, _ := s.MaxIndex()
+		if k := s.KeyAtRank(0); k < mn || k > mx {
+			t.Fatalf("F21 (lowest=%v): KeyAtRank(0)=%d outside [%d,%d]", lowest, k, mn, mx)
+		}
+	}
+}
+
+func TestRegression_C10_F22_ExactStatisticsWhenEveryBinUnderflowed(t *testing.T) {
+	m, _ := mapping.NewLogarithmicMapping(0.01)
+	for _, p := range []store.Provider{store.DenseStoreConstructor, store.SparseStoreConstructor, store.BufferedPaginatedStoreConstructor} {
+		s := ddsketch.NewDDSketchWithExactSummaryStatistics(m, p)
+		_ = s.Add(3)
+		_ = s.Add(7)
+		_ = s.Reweight(0x1p-1000)
+		_ = s.Reweight(0x1p-75) // each bin: 2^-1075, which rounds to 0; their total 2^-1074 does not
+		bins := 0
+		s.ForEach(func(v, w float64) bool { bins++; return false })
+		if bins != 0 || !s.IsEmpty() || s.GetCount() != 0 || s.GetSum() != 0 {
+			t.Fatalf("F22: %d bins, IsEmpty=%v count=%v sum=%v", bins, s.IsEmpty(), s.GetCount(), s.GetSum())
+		}
+		_ = s.Add(5)
+		if mn, _ := s.GetMinValue(); mn != 5 {
+			t.Fatalf("F22: min %v after Add(5) on a sketch whose bins all underflowed", mn)
+		}
+	}
+}
